@@ -210,3 +210,43 @@ Proof.
     { apply NoDup_length_incl; [assumption|rewrite iota_length; lia|assumption]. }
     apply Hnin. apply (proj1 (unique_nat_in flat k)). apply H. apply iota_from_in. lia.
 Qed.
+
+(* ---- unique_pairs: duplicate-free, same elements *)
+Lemma dedup_pairs_in l x : In x (dedup_pairs l) <-> In x l.
+Proof.
+  induction l as [|a l IH]; [reflexivity|].
+  cbn [dedup_pairs]. destruct l as [|b l'].
+  - reflexivity.
+  - destruct (pair_eqb a b) eqn:E.
+    + apply pair_eqb_spec in E. subst b. rewrite IH. split; [intros Hi; right; exact Hi|intros [->|Hi]; [left; reflexivity|exact Hi]].
+    + cbn [In]. rewrite IH. reflexivity.
+Qed.
+Lemma pairsort_sorted l : StronglySorted (fun a b => pair_leb a b = true) (PairSort.sort l).
+Proof.
+  apply Sorted_StronglySorted; [intros a b c; apply pair_leb_trans|].
+  assert (H := PairSort.Sorted_sort l).
+  induction H as [|a l' Hs IH Hhd]; constructor; [assumption|].
+  destruct Hhd; constructor. exact H.
+Qed.
+Lemma dedup_pairs_nodup l : StronglySorted (fun a b => pair_leb a b = true) l -> NoDup (dedup_pairs l).
+Proof.
+  intros Hs. induction l as [|a l IH]; [constructor|].
+  inversion Hs as [|? ? Hs' Hall]; subst. cbn [dedup_pairs]. destruct l as [|b l'].
+  - constructor; [intros []|constructor].
+  - destruct (pair_eqb a b) eqn:E; [apply IH; assumption|].
+    constructor; [|apply IH; assumption].
+    rewrite dedup_pairs_in. intros Hin. rewrite Forall_forall in Hall.
+    inversion Hs' as [|? ? _ Hall']; subst. rewrite Forall_forall in Hall'.
+    assert (pair_leb a b = true) by (apply Hall; left; reflexivity).
+    destruct Hin as [->|Hin]; [rewrite pair_eqb_refl in E; discriminate|].
+    assert (pair_leb b a = true) by (apply Hall'; assumption).
+    assert (a = b) by (apply pair_leb_antisym; assumption). subst. rewrite pair_eqb_refl in E. discriminate.
+Qed.
+Lemma unique_pairs_in l x : In x (unique_pairs l) <-> In x l.
+Proof.
+  unfold unique_pairs. rewrite dedup_pairs_in. split; intros H.
+  - eapply Permutation_in; [apply Permutation_sym, PairSort.Permuted_sort|exact H].
+  - eapply Permutation_in; [apply PairSort.Permuted_sort|exact H].
+Qed.
+Lemma unique_pairs_nodup l : NoDup (unique_pairs l).
+Proof. apply dedup_pairs_nodup, pairsort_sorted. Qed.
